@@ -1460,11 +1460,13 @@ static int _handle_sm(xmpp_conn_t *const conn,
         conn->sm_state->previd = NULL;
         conn->bound_jid = conn->sm_state->bound_jid;
         conn->sm_state->bound_jid = NULL;
+        /* first drop what the server has handled, then continue counting
+         * with the first stanza that is sent again */
+        _sm_queue_cleanup(conn, ul_h);
         if (conn->sm_state->sm_queue.head)
             conn->sm_state->sm_sent_nr = conn->sm_state->sm_queue.head->sm_h;
         else
             conn->sm_state->sm_sent_nr = ul_h;
-        _sm_queue_cleanup(conn, ul_h);
         _sm_queue_resend(conn);
         strophe_debug(conn->ctx, "xmpp", "Session resumed successfully.");
         _stream_negotiation_success(conn);
